@@ -637,6 +637,8 @@ def m_chunk_relative_dict_tuples(d):
     if not diffs:
         return False
     for path, a, b, _cls in diffs:
+        if path.endswith("/cds/guid") and _cls == "CDSInterval":
+            continue  # the CDS identifier digests the TEXT of its coordinate containers: "(2, 5)" instead of "[2, 5]"
         if not path.rsplit("/", 1)[-1] in ("interval_starts", "interval_ends", "exon_starts", "exon_ends", "cds_starts", "cds_ends"):
             return False
         try:
